@@ -235,6 +235,10 @@ def run(ctx):
     ctx.check(ok, "C16-R2", "set:word-and-bit-index", "set() splits the index into idx/32 and idx%32", "SimpleVob::set no longer uses /32 and %32 consistently", site=st.where())
 
     # ------------------------------------------------------------------ R3 sibling char maps
+    if "toktrie_hf_tokenizers" not in P.crates:
+        # the `minimal` configuration does not build the HF adapter: the sibling comparison is decided in `default`
+        ctx.ok("C16-R3", "sibling-char-maps", "toktrie_hf_tokenizers is not part of this configuration")
+        return _rest(ctx, P)
     a = ctx.body("llguidance::tokenizer_json::is_self_mapped")
     b = ctx.body("toktrie_hf_tokenizers::is_self_mapped")
     for nm, body in (("parser", a), ("hf", b)):
@@ -275,6 +279,10 @@ def run(ctx):
         ctx.check("SPECIAL_TOKEN_MARKER" in txt or "'iv': '255'" in txt, "C16-R3", "special-marker-prefix:" + fn.split("::")[0],
                   "special tokens are prefixed with the 0xFF marker", "%s no longer prefixes special tokens with the marker byte" % fn, site=bodies[0].where())
 
+    return _rest(ctx, P)
+
+
+def _rest(ctx, P):
     # ------------------------------------------------------------------ R4 constructors validate; packers assert widths
     val = TT + "::validate"
     for fn in ("from", "filter"):
